@@ -45,6 +45,9 @@ def gen_cases(tier, seed):
         for t, r in ((1, 0), (2, 0), (3, 0), (0, 2), (2, 2), (0, 0)):
             for pstyle in ('plain', 'twice'):
                 cases.append({'kind': kind, 'tx': t, 'rx': r, 'c': 'twice', 'p': pstyle, 'one_ctx': False, 'seed': seed * 7 + len(cases)})
+    if tier == 'thorough':
+        for c in cases:
+            c['deep'] = True
         cases.append({'kind': kind, 'tx': 0, 'rx': 0, 'c': 'plain', 'p': 'plain', 'one_ctx': True, 'seed': seed * 7 + len(cases)})
     return cases
 
@@ -174,7 +177,8 @@ def run_case(case):
         h.start()
     except Unsupported as u:
         return result(cnt={'vsim_unsupported': 1}, inconclusive=f"vsim unsupported: {u}")
-    m, stats = explore.bfs(h, budget=5000, max_depth=30)
+    deep = bool(case.get('deep'))
+    m, stats = explore.bfs(h, budget=40000 if deep else 5000, max_depth=40 if deep else 30)
     cnt['joint_states'] += stats['states']
     cnt['edges'] += stats['edges']
     cnt['closures_reached'] += int(stats.get('closed', False))
@@ -184,7 +188,7 @@ def run_case(case):
             def choose(hh, cmds, r, dens=dens):
                 w = int(r.random() < dens[0])
                 return dict(want_send=w, force=int(w and r.random() < 0.5), can_recv=int(r.random() < dens[1]), pin=r.randrange(4) if w else 0)
-            m = explore.random_run(h, rnd, 800, choose=choose)
+            m = explore.random_run(h, rnd, 6000 if deep else 800, choose=choose)
             if m:
                 break
             delivered += h.model['delivered']
